@@ -158,13 +158,20 @@ def gen_cases(ctx, route, count):
         dx = float(10 ** rng.uniform(-3, 1))
         wvl = float(10 ** rng.uniform(-0.6, 1.1)) if k % 3 else 0.6328
         a = apply_nans(rng, make_values(rng, shape, cls, route, wvl), pat)
-        out.append({'shape': list(shape), 'cls': cls, 'nan': pat, 'dx': dx, 'wvl': wvl, 'a': a})
+        lay = ('C', 'F', 'view')[k % 3]           # memory layout of the array handed to the writer (same values)
+        if lay == 'F':
+            a = np.asfortranarray(a)
+        elif lay == 'view':
+            big = np.full((2 * shape[0] + 1, 3 * shape[1] + 2), 12345.678)
+            big[1::2, 2::3] = a
+            a = big[1::2, 2::3]
+        out.append({'shape': list(shape), 'cls': cls, 'nan': pat, 'dx': dx, 'wvl': wvl, 'a': a, 'layout': lay})
         k += 1
     return out
 
 
 def descr(c, extra=None):
-    d = {'shape': c['shape'], 'cls': c['cls'], 'nan': c['nan'], 'dx': c['dx'], 'wvl': c['wvl'],
+    d = {'shape': c['shape'], 'cls': c['cls'], 'nan': c['nan'], 'dx': c['dx'], 'wvl': c['wvl'], 'layout': c.get('layout', 'C'),
          'values': [None if np.isnan(v) else float(v) for v in c['a'].ravel()]}
     if extra:
         d.update(extra)
@@ -363,9 +370,9 @@ def _cuts(ctx, n):
 
 
 def _correspondence(ctx, pio, Interferogram, tmp):
-    nz = ctx.scale(90, 700)
-    ni = ctx.scale(40, 300)
-    nc = ctx.scale(100, 800)
+    nz = ctx.scale(90, 2500)
+    ni = ctx.scale(40, 900)
+    nc = ctx.scale(100, 2500)
     if ctx.widen:
         nz, ni, nc = nz * 2, ni * 2, nc * 2
     zc = gen_cases(ctx, 'zygo', nz)
@@ -389,9 +396,9 @@ def _correspondence(ctx, pio, Interferogram, tmp):
             try:
                 with _quiet():
                     if route == 'zygo':
-                        pio.write_zygo_dat(f, a.copy(), dx=c['dx'], wavelength=c['wvl'])
+                        pio.write_zygo_dat(f, a, dx=c['dx'], wavelength=c['wvl'])
                     else:
-                        Interferogram(a.copy(), dx=c['dx'], wavelength=c['wvl']).save_zygo_dat(f)
+                        Interferogram(a, dx=c['dx'], wavelength=c['wvl']).save_zygo_dat(f)
                 raw = open(f, 'rb').read()
                 rec['raw'] = raw
             except Exception as ex:   # noqa
@@ -427,7 +434,7 @@ def _correspondence(ctx, pio, Interferogram, tmp):
                 picks.append(c)
                 break
     for c in tsel:
-        if len(picks) >= 3:
+        if len(picks) >= ctx.scale(3, 8):
             break
         if c not in picks:
             picks.append(c)
@@ -450,7 +457,7 @@ def _correspondence(ctx, pio, Interferogram, tmp):
         rec = {'c': c}
         try:
             with _quiet():
-                pio.write_codev_gridint(a.copy(), f)
+                pio.write_codev_gridint(a, f)
             rec['text'] = open(f).read()
         except Exception as ex:   # noqa
             rec['werr'] = f'{type(ex).__name__}: {ex}'
@@ -475,7 +482,7 @@ def _correspondence(ctx, pio, Interferogram, tmp):
     # Code V truncation: three files, every cut point of the tier
     ctrunc = []
     csel = [r for r in crec if 'text' in r and 'out' in r and 2 <= r['c']['a'].size <= 48 and nontrivial(r['c'])
-            and r['c']['nan'] in ('none', 'corner', 'scatter')][:3]
+            and r['c']['nan'] in ('none', 'corner', 'scatter')][:ctx.scale(3, 8)]
     for r in csel:
         text = r['text']
         f = os.path.join(tmp, 'ct.int')
@@ -746,6 +753,14 @@ def search(ctx, hints):
                                  'input': _inp(route, a, dx, wvl, cut), 'detail': bad})
             return bad
 
+        cdir = os.path.join(C.VERIF, 'corpus', 'C14')
+        if os.path.isdir(cdir):
+            import json
+            for fn in sorted(os.listdir(cdir)):
+                if fn.endswith('.json'):
+                    c = json.load(open(os.path.join(cdir, fn)))['input']
+                    a = np.array([np.nan if v is None else v for v in c['values']], dtype=float).reshape(c['shape'])
+                    consider(c['route'], a, c['dx'], c['wvl'], c.get('cut'))
         for shape, name, a in _small_maps():
             for route in ('zygo', 'ifg', 'codev'):
                 consider(route, a, 0.5, 0.6328)
